@@ -72,6 +72,10 @@ CLAIMED = {
          "stateless model checking of the connection cache under concurrent first use: regions x callers x all schedules with <=2 deviations; dial and open-connection counters",
          "2-4 regions on one address first used by as many (or one more) concurrent callers from a cold cache, optionally followed by a later discovery on the same server or by a connection reset and a second burst. Oracle: one dial per connection generation, never two connections open to one address, all requests succeed.",
          "Tier L.", "DESIGN.md §4 C20"),
+ "C05": ("model_checking",
+         "call shapes and multi groupings through the real region client into an independent wire decoder; concurrent senders on a non-TCP connection under all schedules with <=2 deviations",
+         "Every call shape (mutation kinds x value maps x timestamps x durabilities x TTL, check-and-put, gets and scans with their options singly and in pairs, scanner continue/close/renew) and every multi-request grouping of 1-4 calls over two regions (plus sequences over three) is sent by the real region client, plain and snappy-compressed, over a simulated connection; an independent decoder checks preamble, connection header, frame length, unique call ids, method, priority, cellblock length, cell counts and compares the decoded operation field by field with what the caller built. 2-3 concurrent senders on a net.Conn whose gather write is several Writes are explored over all schedules with <=2 deviations: the stream must parse into exactly the issued frames.",
+         "Kernel-TCP writev atomicity is trusted (not modelled); map iteration order inside the client is fixed by the instrumentation, family orders are varied by the inputs.", "DESIGN.md §4 C05"),
  "C08": ("model_checking",
          "explicit-state breadth-first search over the real location cache, every transition executed on the implementation and judged against an interval model",
          "All 1683 reachable states of a universe of every interval over 3 boundary points x 2 ids (plus a prefix-named table) with put/del of every region as transitions (87k per configuration), repeated with 0..130 filler regions to move entries across B-tree pages; invariant (no two cached regions of a table intersect) in every state, transition relation (evict-all-older / unchanged) on every edge, dead marks, and a differential rebuild from the canonical state.",
@@ -82,7 +86,7 @@ CLAIMED = {
          "Every ordered pair of ~2.6k (quick) / ~10k (thorough) well-formed region names and every triple of a 160-name subset is compared with the real comparator and with a component-wise (table,start,id) oracle; search keys 'table,key,:' are compared against every name. Exhaustive within the stated alphabet and key length, which is where comparator mistakes live (bytes around ',' and unequal lengths).",
          "Scope bound: start keys <=2/<=3 bytes over {00,'+',',','-','a',ff}; well-formed names only.", "DESIGN.md §4 C16"),
 }
-FIX_COMMITS = ["0da2129", "62252c5", "effb93f", "0cef440", "27c75df", "f573f90", "137cea9", "fa68402", "74e6ab5", "ffdcfd8", "dc24a9a", "6fcb5bf", "0fa34d5", "6c1c1ad", "7f1a30c", "182fbfa", "4bf0000"]
+FIX_COMMITS = ["0da2129", "62252c5", "effb93f", "0cef440", "27c75df", "f573f90", "137cea9", "fa68402", "74e6ab5", "ffdcfd8", "dc24a9a", "6fcb5bf", "0fa34d5", "6c1c1ad", "7f1a30c", "182fbfa", "4bf0000", "ea56d2b"]
 NA_REASONS = {}
 PENDING_REASON = "check under construction in this revision (planned: see DESIGN.md §4); not claimed until its check is committed"
 
